@@ -20,3 +20,25 @@ Proof.
   exists [([97], 1 # 4, 1 # 4)], None, None, [116], (Some false), 1%nat.
   vm_compute. discriminate.
 Qed.
+
+(* ---------- worker pools ------------------------------------------------------------------------ *)
+From PV Require Import C11.ProofsSort.
+
+Lemma pool_eq_serial sched chunk file :
+  (forall i, (i < length (lines file))%nat -> In i sched) ->
+  read_trn_pool sched chunk file = read_trn_serial file.
+Proof.
+  intros H. unfold read_trn_pool, read_trn_serial. rewrite imap_eq_map by exact H. reflexivity.
+Qed.
+
+Lemma workers_irrelevant processes sched chunk file :
+  (forall i, (i < length (lines file))%nat -> In i sched) ->
+  read_trn_file processes sched chunk file = read_trn_serial file
+  /\ read_trn_path processes sched chunk file = read_trn_serial file.
+Proof.
+  intros H. unfold read_trn_path, read_trn_file.
+  destruct processes; [split; reflexivity|]. split; apply pool_eq_serial; exact H.
+Qed.
+
+Lemma trn_path_eq_file ts : write_trn_path ts = write_trn_file ts.
+Proof. reflexivity. Qed.
